@@ -103,6 +103,7 @@ TIdent == /\ Is("ident") /\ ks.live
 \* deferred = sec_to_public_pair handed out an off-curve pair of a well-formed uncompressed blob and
 \* every consumer (Key, verify) then refused it; the spec refuses such a blob
 TSec == /\ Is("sec")
+        /\ ~Cur.raised                      \* only the documented exception families
         /\ LET d == SecDecode(Cur.b, Cur.strict)  f == FieldsOf(Cur.b) IN
            /\ Cur.ok = (d # NoPt)
            /\ Cur.ok => Cur.pt = d /\ Cur.comp = SecCompressed(Cur.b)
@@ -111,6 +112,7 @@ TSec == /\ Is("sec")
         /\ UNCHANGED ks /\ Advance
 
 TSecF == /\ Is("secf")
+         /\ ~Cur.raised
          /\ LET f == Cur.f IN
             /\ Cur.ok = SecOkF(f, Cur.strict)
             /\ Cur.ok => Cur.comp = SecCompressedF(f)
@@ -141,6 +143,7 @@ TDerEnc == /\ Is("derenc")
            /\ UNCHANGED ks /\ Advance
 
 TWifP == /\ Is("wifp")
+         /\ ~Cur.raised
          /\ LET r == WifParse(Cur.pfx, Cur.payload, SecpN) IN
             /\ Cur.ok = r.ok
             /\ r.ok => Cur.se = r.se /\ Cur.comp = r.compressed
